@@ -401,6 +401,8 @@ def oracle(ctx, ops, go_out):
 
 
 def run(ctx):
+    with Lock():
+        heal_extract()
     standard_run(
         ctx, props=PROPS, family=FAMILY, consts=["Frame", "Prim"], go_runner=GO.runner, gen_ops=gen_ops, oracle=oracle,
         corr_name="corr:C40:hdr",
